@@ -537,23 +537,29 @@ def rule_naming(chk, prog, tier):
 
 
 def rule_flush(chk, prog, tier):
-    r = chk.rule('C09.d', 'cproc-qbe:main reaches its successful return in compile mode only after emittentativedefns()', floor=1)
+    r = chk.rule('C09.d', 'cproc-qbe:main reaches its successful return in compile mode only after emittentativedefns(): no path from a call of decl() to a normal return avoids it', floor=1)
+    from cfg import cfgs, callee_name
     mn = prog.require_func('main')
-    # structural: in main, the else-branch of `if (pponly)` ends with a call to emittentativedefns, and no return precedes it
-    found = False
-    for n in facts.walk(mn):
-        if n['kind'] == 'IfStmt':
-            ch = facts.children(n)
-            c = facts.unwrap(ch[0])
-            if c['kind'] == 'DeclRefExpr' and c['referencedDecl'].get('name') == 'pponly' and len(ch) == 3:
-                els = facts.children(ch[2])
-                calls = [x for x in els if x['kind'] == 'CallExpr' and facts.unwrap(x['inner'][0])['referencedDecl'].get('name') == 'emittentativedefns']
-                rets = [x for x in facts.walk(ch[2]) if x['kind'] == 'ReturnStmt']
-                found = True
-                r.instance(bool(calls) and els[-1] is calls[-1] and not rets, 'flush-before-exit', 'main.c:%s' % n.get('line'),
-                           'the compile branch of main must end with emittentativedefns() and contain no early return')
-    if not found:
-        raise AnalysisBroken('main(): `if (pponly) ... else ...` not found')
+    g = cfgs(prog)[1].get(mn['id'])
+    if g is None:
+        raise AnalysisBroken('no CFG for main')
+    def has_call(n, name):
+        return n.ast is not None and any(c.get('kind') == 'CallExpr' and callee_name(c) == name for c in facts.walk(n.ast))
+    starts = [n for n in g.nodes if has_call(n, 'decl')]
+    if not starts or not any(has_call(n, 'emittentativedefns') for n in g.nodes):
+        if not starts:
+            raise AnalysisBroken('main(): no call of decl() found')
+    # search for a path start -> exit / ret that avoids every node calling emittentativedefns
+    seen = set(); stack = list(starts); escape = None
+    while stack:
+        n = stack.pop()
+        if n.id in seen: continue
+        seen.add(n.id)
+        if has_call(n, 'emittentativedefns'): continue
+        if n.kind in ('exit', 'ret'):
+            escape = n; break
+        for m, _ in n.succ: stack.append(m)
+    r.instance(escape is None, 'flush-before-exit', 'main.c:%s' % (starts[0].line,), 'main can return normally after parsing declarations without calling emittentativedefns() (return at line %s)' % (escape.line if escape else None))
     r.exhaustive = True
 
 
